@@ -11,6 +11,7 @@ import (
 	"github.com/beevik/etree"
 	saml2 "github.com/russellhaering/gosaml2"
 	"github.com/russellhaering/gosaml2/types"
+	dsig "github.com/russellhaering/goxmldsig"
 )
 
 func runLogoutStream(c *Ctx, n int) {
@@ -22,6 +23,7 @@ func runLogoutStream(c *Ctx, n int) {
 		"(config * node * list (node * dsig_result))",
 		"fun i => match i with (cfg, root, dt) => res_val logout_request_val (validate_logout_request_tree (dsig_table dt) cfg root) end")
 	csR.PerShard, csQ.PerShard = 40, 40
+	var prevSP *saml2.SAMLServiceProvider
 	for k := 0; k < n; k++ {
 		r := c.R
 		g := &xgen{r: r, now: baseNow.Add(time.Duration(r.Intn(100000)) * time.Second)}
@@ -36,6 +38,16 @@ func runLogoutStream(c *Ctx, n int) {
 		if r.Intn(3) == 0 {
 			sp.IdentityProviderIssuer = ""
 		}
+		// clock sweep around the IdP certificate window (wall time is far outside it)
+		if r.Intn(5) == 0 {
+			g.now = []time.Time{certNB.Add(-time.Hour), certNB, certNA, certNA.Add(time.Hour)}[r.Intn(4)]
+			sp.Clock = dsig.NewFakeClockAt(g.now)
+		}
+		if prevSP != nil && r.Intn(2) == 0 {
+			reconfigure(prevSP, sp)
+			sp = prevSP
+		}
+		prevSP = sp
 		isResp := r.Intn(2) == 0
 		rs := &ResponseSpec{ID: fmt.Sprintf("_l%d", r.Intn(1000000)), InResponseTo: "_q1", Version: "2.0", Issuer: sp2(idpIss), StatusCode: sp2(statusOK),
 			Style: styles[r.Intn(len(styles))], Kind: "LogoutResponse", Destination: pick(r, sloURL, sloURL, "")}
@@ -48,7 +60,7 @@ func runLogoutStream(c *Ctx, n int) {
 		if r.Intn(3) == 0 {
 			switch r.Intn(6) {
 			case 0:
-				rs.Destination = pick(r, acsURL, sloURL+"/", "https://evil.example.com/slo")
+				rs.Destination = pick(r, append(nearMisses(sloURL), acsURL, "https://evil.example.com/slo")...)
 				faults = append(faults, "destination")
 			case 1:
 				rs.Version = pick(r, "1.1", "", "2.00")
@@ -341,7 +353,7 @@ func runPredecodeStream(c *Ctx, n int) {
 		}
 		// attacker-shaped roots: duplicated / prefixed / xmlns-shadowed attributes, extra Issuer elements, leading whitespace / comments
 		s := string(raw)
-		shape := r.Intn(10)
+		shape := r.Intn(11)
 		rootTagEnd := strings.Index(s[strings.Index(s, rs.Kind):], " ") + strings.Index(s, rs.Kind)
 		ins := func(at int, text string) { s = s[:at] + text + s[at:] }
 		switch shape {
@@ -366,6 +378,18 @@ func runPredecodeStream(c *Ctx, n int) {
 		case 6:
 			ins(rootTagEnd, ` xmlns:x="urn:x" x:Destination="https://evil.example.com/" x:Version="9.9" x:InResponseTo="_other"`)
 			labels = append(labels, "prefixed-base-attrs")
+		case 9:
+			// unsigned root + signed assertion + an EncryptedAssertion whose plaintext is an Issuer element (anyone can encrypt)
+			if !isLogout && rs.SignedBy == nil {
+				plain := []byte(`<saml:Issuer xmlns:saml="urn:oasis:names:tc:SAML:2.0:assertion">https://tenant-b.example.com/metadata</saml:Issuer>`)
+				d0 := etree.NewDocument()
+				d0.SetRoot(encryptedAssertion(plain, *g.randEncOpts(w), rs.Style.AP))
+				eaStr, _ := d0.WriteToString()
+				close := strings.LastIndex(s, "</")
+				ins(close, eaStr)
+				sp.IdentityProviderIssuer = ""
+				labels = append(labels, "encrypted-issuer-plaintext")
+			}
 		case 7, 8:
 			// a second, different root Issuer in front of the genuine one (validation keeps the LAST one)
 			close := strings.Index(s[rootTagEnd:], ">") + rootTagEnd + 1
@@ -379,6 +403,15 @@ func runPredecodeStream(c *Ctx, n int) {
 		if r.Intn(3) == 0 {
 			wire = deflateBytes(raw, -1)
 			labels = append(labels, "deflated")
+		}
+		if shape == 10 && !isLogout {
+			// polyglot: a DEFLATE stream of stored blocks whose header bytes are legal XML text, so that the "is it plain XML?"
+			// attempt sees a root start tag with OTHER attributes than the inflated document has
+			if pw, pinfl, ok := polyglotStoredBlocks(g, w); ok {
+				wire, raw = pw, pinfl
+				sp.IdentityProviderIssuer = idpIss
+				labels = []string{"kind=Response", "polyglot-stored-blocks"}
+			}
 		}
 		enc := b64(wire)
 		replay := map[string]interface{}{"op": "pre-decode vs validation", "labels": labels, "encoded": enc, "xml": string(raw), "clock": g.now.Format(time.RFC3339Nano)}
@@ -462,4 +495,43 @@ func runPredecodeStream(c *Ctx, n int) {
 			cs.Add(nodeTerm(d.Root()), obs, strings.Join(labels, ","))
 		}
 	}
+}
+
+
+// polyglotStoredBlocks builds (wire, inflated): inflated is an unsigned Response with one IdP-signed assertion and neither
+// Destination nor InResponseTo; wire is a DEFLATE stream of stored blocks that, read as plain XML, shows a root start tag
+// carrying Destination and InResponseTo before it becomes ill-formed.
+func polyglotStoredBlocks(g *xgen, w *World) ([]byte, []byte, bool) {
+	hdr := func(first byte, n int) []byte { return []byte{first, byte(n), byte(n >> 8), ^byte(n), ^byte(n >> 8)} }
+	const len0, len1 = 0x4020, 0x5A27
+	as := g.okAssertionSpec(0)
+	as.XsiTypes, as.CommentInValues, as.UseCDATA = false, false, false
+	st := nsStyle{"samlp", "saml"}
+	ael := buildAssertion(st, as)
+	o := g.randSignOpts(w.IdP1)
+	o.C14N = "exc"
+	if err := signInPlace(ael, *o); err != nil {
+		return nil, nil, false
+	}
+	d := etree.NewDocument()
+	d.SetRoot(ael)
+	assertion, _ := d.WriteToString()
+	head := `<samlp:Response xmlns:samlp="urn:oasis:names:tc:SAML:2.0:protocol" xmlns:saml="urn:oasis:names:tc:SAML:2.0:assertion" ID="_polyglot" a='`
+	data0 := strings.Repeat(" ", len0-len(head)) + head
+	body := `="" Destination="https://other-sp.example.net/acs" InResponseTo="_stale-request" b="' c=">" Version="2.0" IssueInstant="2024-05-17T10:29:00Z">` +
+		`<saml:Issuer>` + idpIss + `</saml:Issuer><samlp:Status><samlp:StatusCode Value="` + statusOK + `"/></samlp:Status>` + assertion
+	tail := `</samlp:Response`
+	if len(body)+len(tail) > len1 {
+		return nil, nil, false
+	}
+	data1 := body + strings.Repeat(" ", len1-len(body)-len(tail)) + tail
+	data2 := ">"
+	var raw []byte
+	raw = append(raw, hdr(0x20, len0)...)
+	raw = append(raw, data0...)
+	raw = append(raw, hdr('8', len1)...)
+	raw = append(raw, data1...)
+	raw = append(raw, hdr(0x01, len(data2))...)
+	raw = append(raw, data2...)
+	return raw, []byte(data0 + data1 + data2), true
 }
